@@ -922,6 +922,14 @@ Proof.
   intro a. apply Frame_mem. exact Hfr.
 Qed.
 
+(* non-vacuity, computed on the model: MVN #$00,#$00 at $00:8000 with C = 2 (M = X = 0), NOPs behind it: four Steps fetch at
+   $8000 $8000 $8000 $8003 -- the walk [expand [$8000; $8003] [3; 1]] of C07_couple_moves *)
+Definition ex_regs_mv (f : N) : Z :=
+  if N.eqb f f_PC then 32768 else if N.eqb f f_Interrupt then 1 else if N.eqb f f_RA then 2 else if N.eqb f f_RAl then 2 else 0.
+Definition ex_state_mv : st := mkst ex_regs_mv (fun a => if a =? 32768 then 84 else if (a =? 32769) || (a =? 32770) then 0 else 234) [] (fun _ => false) false.
+Example ex_fetch_mv : option_map fst (fetches st c_step c_pc c_rk 4 ex_state_mv) = Some [32768; 32768; 32768; 32771].
+Proof. vm_compute. reflexivity. Qed.
+
 (* C07 with block moves for this interpreter: Props/CoupleProps.C07_couple_moves instantiated (programs of straight-line
    instructions, conditional branches not taken in the run, MVN / MVP): for every N, the first k <= N steps fetch exactly
    at the instruction starts, in order, a block move as often as it repeats itself; then the program is finished with
